@@ -122,6 +122,7 @@ theorem handler_effect_ok (s : St PS) (inv : ProcInv s) (now pid tag : Nat) (p :
     ∀ q, cnt (acts.foldl (runAct now) (segStart now { ps := s.ent } pid tag p)) q ≤ 1 := by
   have h0 : Bnd (cntPark s.ent.futs) (segStart now { ps := s.ent } pid tag p) := by
     unfold segStart
+    apply Bnd_setCur
     apply Bnd_setProc
     split
     · exact Bnd_addObs _ _ _ (Bnd_init s inv)
@@ -472,5 +473,27 @@ example :
 example :
     (run procMachine none 6 (demoLate.initState false)).ent.obs.any
       (fun o => match o with | .resume 5 1 (.atom 0 3) _ => true | _ => false) = true := by decide
+
+/-- future 0 is yielded directly by process 0 (kind 1) and is at the same time an input of the any_of
+    (slot 2) process 1 (kind 2) waits on; kind 3 resolves it at t = 5.  A relay (kind 4, limit 2)
+    forwards a packet whose hop count lives in the event metadata. -/
+def demoShared : Program :=
+  { defs := [⟨0, 1, true, [⟨[], .yieldF 0⟩, ⟨[], .ret⟩]⟩,
+             ⟨0, 2, true, [⟨[.anyOf 2 [1, 0]], .yieldF 2⟩, ⟨[], .ret⟩]⟩,
+             ⟨0, 3, false, [⟨[.resolve 0 9], .ret⟩]⟩,
+             ⟨0, 4, false, [⟨[.relay 0 4 10 2 false], .ret⟩]⟩],
+    pre := [(⟨1, 0, 1, false, 0, 1⟩, 0, false), (⟨2, 0, 2, false, 0, 2⟩, 0, false),
+            (⟨5, 0, 3, false, 0, 3⟩, 0, false), (⟨6, 0, 4, false, 0, 4⟩, 0, false)] }
+
+-- `resolve_wakes_then_notifies`: both the process parked on future 0 and the one waiting on the any_of are
+-- resumed at t = 5, with `9` and `(1, 9)`
+example :
+    let s := run procMachine none 12 (demoShared.initState false)
+    s.ent.obs.any (fun o => match o with | .resume 5 0 (.n 9) _ => true | _ => false) = true ∧
+    s.ent.obs.any (fun o => match o with | .resume 5 1 (.pair 1 (.n 9)) _ => true | _ => false) = true := by decide
+-- `relay_forwards` / `relay_stops`: the packet scheduled at t = 6 is delivered three times (hops 0, 1, 2)
+example :
+    ((run procMachine none 12 (demoShared.initState false)).log.filter (fun e => e.kind == 4)).map (·.time)
+      = [6, 16, 26] := by decide
 
 end HappyModel.C01
